@@ -125,7 +125,10 @@ def run(chk):
             shp = getattr(out, "alloc_shape", None)
             want = (3, "rest") if rest is not None else (3,)
             detail.append(f"{'N-D' if rest else '1-D'} source -> allocation {shp}")
-            if tuple(shp) != want:
+            if shp is None:
+                ok_shape = None
+                detail.append("the packer's result is not a fresh allocation (shape not tracked)")
+            elif tuple(shp) != want:
                 ok_shape = False
         except (RowError, RowUnknown) as e:
             ok_shape = None
